@@ -92,7 +92,23 @@ func byNameHandler(args []string) (string, []string) {
 			}
 		}
 		d := lib.NewDate(y, uint8(m), uint8(dd))
-		_, sab := convByName(d, a, b)
+		ab, sab := convByName(d, a, b)
+		sback := sab
+		if ab != nil {
+			var back *lib.Date
+			back, sback = convByName(ab, b, a)
+			// inverse law on a literal well-formed date (not derived from JdTo, so a day that JdTo
+			// no longer produces is still exercised)
+			if ctA := registeredAs(a); ctA != nil && registeredAs(b) != nil && m >= 1 && m <= 12 && dd >= 1 {
+				wf := func() (ok bool) {
+					defer func() { recover() }()
+					return dd <= int(ctA.GetMonthLen(y, uint8(m)))
+				}()
+				if wf && !hijriTableSeam(ctA, ctA.ToJd(d)) && !hijriTableSeam(registeredAs(b), ctA.ToJd(d)) && !sameDate(back, d) {
+					ps.add("C06", "history=%s from=%s to=%s date=%d/%d/%d converts to %s and back to %s", hist, a, b, y, m, dd, sab, sback)
+				}
+			}
+		}
 		stj := func() (out string) {
 			defer func() {
 				if r := recover(); r != nil {
@@ -117,7 +133,7 @@ func byNameHandler(args []string) (string, []string) {
 		if !ka && stj != "err" {
 			ps.add("C06", "%s unknown calendar name did not yield an error: ToJd=%s", tag, stj)
 		}
-		return sab + " " + stj, ps.out()
+		return sab + " " + stj + " " + sback, ps.out()
 	case len(args) == 6 && args[0] == "conv":
 		hist, a, b, c := args[1], args[2], args[3], args[4]
 		jd, err := strconv.Atoi(args[5])
@@ -203,9 +219,12 @@ func byNameHandler(args []string) (string, []string) {
 				ctA, _ = cal_types.GetCalType(a)
 				ctB, _ = cal_types.GetCalType(b)
 			}
-			// dates on which a single calendar fails its own round trip belong to C01
-			okA := ctA.ToJd(d) == jd && sameDate(ctA.JdTo(jd), d)
-			okB := ctB.ToJd(ctB.JdTo(jd)) == jd
+			// dates on which a single calendar fails its own round trip belong to C01: on the unchanged
+			// tree those are exactly the two seams of the hijri month table (open known findings). The
+			// attribution is by that explicit window, NOT by re-running the calendar in this process —
+			// a by-name defect that depends on the configuration history must not excuse itself.
+			okA := !(hijriTableSeam(ctA, jd))
+			okB := !(hijriTableSeam(ctB, jd))
 			if viaJd != strconv.Itoa(ctA.ToJd(d)) || !sameDate(ab, ctB.JdTo(ctA.ToJd(d))) {
 				ps.add("C06", "%s by-name result %s differs from the per-calendar functions %s", tag, sab, showDate(ctB.JdTo(ctA.ToJd(d))))
 			}
@@ -224,6 +243,18 @@ func byNameHandler(args []string) (string, []string) {
 		return fmt.Sprintf("%s %s %s %s %s %s %s", showDate(d), viaJd, saa, sab, sback, sac, sbc), ps.out()
 	}
 	return "bad-request", nil
+}
+
+// is ct hijri in month-table mode and jd inside one of the table's seam windows?
+func hijriTableSeam(ct cal_types.CalType, jd int) bool {
+	if !strings.Contains(fmt.Sprintf("%T", ct), "hijri") {
+		return false
+	}
+	loaded, use, _, startJd, endJd, _ := hijri.VerifMonthData()
+	if !loaded || !use {
+		return false
+	}
+	return (jd >= startJd-31 && jd <= startJd+31) || (jd >= endJd-1 && jd <= endJd+150)
 }
 
 // the calendar whose own Name() is n, from the registration list
